@@ -45,6 +45,50 @@ class _Ob:
 
 
 def check_all(ifaces, states, where):
+    _check_all(ifaces, states, where)
+    _check_root(ifaces, states, where)
+
+
+def _check_root(ifaces, states, where):
+    """The root `Interface` is the last member of every __iro__: a tagged value and an invariant set on it are inherited by every
+    interface (set for the duration of the check only)."""
+    from zope.interface import Interface
+    from zope.interface.exceptions import Invalid
+    had = Interface.queryDirectTaggedValue('invariants', None)
+
+    def root_inv(ob):
+        ob.log.append('root')
+    Interface.setTaggedValue('rt', 'root')
+    Interface.setTaggedValue('invariants', [root_inv])
+    try:
+        for n, I in enumerate(list(ifaces) + [Interface]):
+            ctx = '%s node=%s with a tagged value and an invariant set on the root Interface' % (where, 'I%d' % n if n < len(ifaces) else 'Interface')
+            if I.queryTaggedValue('rt') != 'root' or I.getTaggedValue('rt') != 'root':
+                raise Violation('%s: the tag of the root is not inherited' % ctx, signature='C15:tag:root')
+            exp_tags = set()
+            for J in I.__iro__:
+                exp_tags |= set(J.getDirectTaggedValueTags())
+            if set(I.getTaggedValueTags()) != exp_tags or 'rt' not in exp_tags:
+                raise Violation('%s: getTaggedValueTags=%s, union over __iro__=%s' % (ctx, sorted(I.getTaggedValueTags()), sorted(exp_tags)),
+                                signature='C15:tag:tags')
+            ob = _Ob()
+            errors = []
+            try:
+                I.validateInvariants(ob, errors)
+            except Invalid:
+                pass
+            if ob.log.count('root') != 1 or ob.log[-1] != 'root':
+                raise Violation('%s: validateInvariants ran %r; the invariant of the root runs once, last' % (ctx, ob.log), signature='C15:invariants:root')
+    finally:
+        tv = Interface._Element__tagged_values
+        tv.pop('rt', None)
+        if had is None:
+            tv.pop('invariants', None)
+        else:
+            tv['invariants'] = had
+
+
+def _check_all(ifaces, states, where):
     from zope.interface import Interface, implementer
     from zope.interface.exceptions import Invalid, BrokenMethodImplementation, BrokenImplementation
     from zope.interface.interface import Method
